@@ -71,7 +71,9 @@ static Verdict run(const Json::Value& sc) {
           }
           if (e->ret == 0) sawSignal = true;
         } else if (e->k == "pidfd_open") {
-          if (!subset.count((int)e->a)) {
+          // pid 0 ('0' lines of cgroup.procs) is refused by the kernel with
+          // EINVAL and touches no process: not a containment violation.
+          if (e->a > 0 && !subset.count((int)e->a)) {
             v.fail("pidfd_open on pid " + std::to_string(e->a) + " outside victim '" + a.victim + "'" + where);
           }
         } else if (e->k == "setxattr") {
